@@ -135,10 +135,10 @@ theorem absDir_remove (upper : Char → List Char) (slots : List (List Nat)) (hs
 
 theorem absDir_create (slots : List (List Nat)) (units sfn : List Nat) (hs : Shape slots)
     (h1 : 1 ≤ units.length) (h255 : units.length ≤ 255) (hu : ∀ x ∈ units, x < 65536)
-    (hne : units ≠ []) (hlast : isPad (units.getLast hne) = false) (hsfn : slotClass sfn = .file) :
+    (hnz : ∀ x ∈ units, x ≠ 0) (hsfn : slotClass sfn = .file) :
     (absDir (writeEntry slots units sfn)).Perm ((units, sfn) :: absDir slots) ∧
       Shape (writeEntry slots units sfn) := by
-  obtain ⟨L1, L2, e1, e2, _, _, e5⟩ := writeEntry_insert true slots units sfn hs h1 h255 hu hne hlast hsfn
+  obtain ⟨L1, L2, e1, e2, _, _, e5⟩ := writeEntry_insert true slots units sfn hs h1 h255 hu hnz hsfn
   refine ⟨?_, e5⟩
   rw [absDir_eq, absDir_eq]
   show (List.map absEntry (readDirEntries true true (writeEntry slots units sfn))).Perm
@@ -152,13 +152,13 @@ theorem create_wf (upper : Char → List Char) (slots : List (List Nat)) (name :
     (hwf : DirWf upper slots) (hname : name ≠ [])
     (h1 : 1 ≤ (Names.encodeUtf16 name).length) (h255 : (Names.encodeUtf16 name).length ≤ 255)
     (hu : ∀ x ∈ Names.encodeUtf16 name, x < 65536)
-    (hne : Names.encodeUtf16 name ≠ []) (hlast : isPad ((Names.encodeUtf16 name).getLast hne) = false)
+    (hnz : ∀ x ∈ Names.encodeUtf16 name, x ≠ 0)
     (hsfn : slotClass sfn = .file)
     (hnf : findEntry upper slots name = none)
     (hraw : ∀ e ∈ listing slots, sfnName e.sfn ≠ sfnName sfn)
     (halias : ∀ e ∈ listing slots, matchesName upper e (Names.aliasDisplay (sfnName sfn)) = false) :
     DirWf upper (writeEntry slots (Names.encodeUtf16 name) sfn) := by
-  apply writeEntry_wf upper slots _ sfn hwf h1 h255 hu hne hlast hsfn hraw
+  apply writeEntry_wf upper slots _ sfn hwf h1 h255 hu hnz hsfn hraw
   intro e he q hq
   obtain ⟨hq1, hq2⟩ := hq
   have hnone := (findEntry_none_iff upper slots name).1 hnf e he
@@ -177,13 +177,13 @@ theorem absDir_rename (upper : Char → List Char) (slots : List (List Nat)) (sr
     (hs : Shape slots) (e : LfnEntry) (hsrc : findEntry upper slots src = some e)
     (h1 : 1 ≤ (Names.encodeUtf16 dst).length) (h255 : (Names.encodeUtf16 dst).length ≤ 255)
     (hu : ∀ x ∈ Names.encodeUtf16 dst, x < 65536)
-    (hne : Names.encodeUtf16 dst ≠ []) (hlast : isPad ((Names.encodeUtf16 dst).getLast hne) = false)
+    (hnz : ∀ x ∈ Names.encodeUtf16 dst, x ≠ 0)
     (hcls : slotClass (renamedSfn e.sfn alias) = .file) :
     (absDir (writeEntry (deleteRange slots e.beginIdx e.endIdx) (Names.encodeUtf16 dst) (renamedSfn e.sfn alias))).Perm
         ((Names.encodeUtf16 dst, renamedSfn e.sfn alias) :: (absDir slots).eraseP (amMatch upper src)) ∧
       Shape (writeEntry (deleteRange slots e.beginIdx e.endIdx) (Names.encodeUtf16 dst) (renamedSfn e.sfn alias)) := by
   obtain ⟨d1, d2⟩ := absDir_remove upper slots hs src e hsrc
-  obtain ⟨c1, c2⟩ := absDir_create _ (Names.encodeUtf16 dst) (renamedSfn e.sfn alias) d2 h1 h255 hu hne hlast hcls
+  obtain ⟨c1, c2⟩ := absDir_create _ (Names.encodeUtf16 dst) (renamedSfn e.sfn alias) d2 h1 h255 hu hnz hcls
   rw [d1] at c1
   exact ⟨c1, c2⟩
 
